@@ -70,3 +70,33 @@ Proof. exact build_fine_completable_sym. Qed.
 
 Check C05_deadlock_free.
 Check C05_fine_no_deadlock.
+
+(* ---- clean under every interleaving of its rule threads (round 4; Model/CleanFine.v, Proofs/CleanFine*.v) ----
+   A clean thread's work is split at every target (one step = look at one target and, if it is there, move it into the
+   cache). Every step decreases a measure, an unfinished run can always move, every run can be completed; and no run of a
+   clean ever ends with an error (the cache directory exists after init). *)
+From Coq Require Import Relations.
+From Ruler Require Import Bytes AList RuleSyntax TopoSort World Work Build Ops Inv InvFacts BuildSpec C01Facts C02Sym CoarseInv C18CoarseFacts Sched Fine FineCor CleanFine CleanFineBasic CleanFineInv CleanFineFacts.
+Local Open Scope nat_scope.
+
+Theorem C05_clean_step_decreases : forall blobs (st : cstate sym) k st',
+  cstep_sym blobs st k = Some st' -> cmeasure sym blobs st' < cmeasure sym blobs st.
+Proof. exact clean_fine_step_decreases_sym. Qed.
+Print Assumptions C05_clean_step_decreases.
+
+Theorem C05_clean_no_deadlock : forall blobs ch (w1 : world sym),
+  let st := crun_sym blobs ch (cinit sym w1 (length blobs)) in
+  call_done st = false -> exists k, cstep_sym blobs st k <> None.
+Proof. exact clean_fine_no_deadlock_sym. Qed.
+Print Assumptions C05_clean_no_deadlock.
+
+Theorem C05_clean_every_run_can_be_completed : forall (w : world sym) rp goal ch,
+  exists ch', clean_complete_sym (ch ++ ch') w rp goal.
+Proof. exact clean_fine_completable_run_sym. Qed.
+Print Assumptions C05_clean_every_run_can_be_completed.
+
+Theorem C05_clean_never_fails : forall (w : world sym) rp goal w1 tbl pack ch,
+  disk_inv sym_eqb SContent w -> init_dir sym w = Ok (w1, tbl) -> get_nodes sym w1 rp goal = Ok pack ->
+  o_verdict (clean_fine_sym ch w rp goal) = VOk.
+Proof. exact clean_fine_verdict_ok_sym. Qed.
+Print Assumptions C05_clean_never_fails.
